@@ -396,7 +396,7 @@ def fmt_p(p):
 
 
 def _fa(a):
-    s = fmt(a)
+    s = _fmt(a)
     return s
 
 
@@ -406,8 +406,27 @@ def fmt_r(r):
     return '(%s)/(%s)' % (fmt_p(r.n), fmt_p(r.d))
 
 
+FULL = {}
+
+
+class FStr(str):
+    """a rendering that remembers what a slice of it was cut from: rules quote evidence clipped to a readable length, the criteria of report.Ctx.violation
+    (does the evidence go through storage/definitions the rule does not read?) must see all of it"""
+    __slots__ = ()
+
+    def __getitem__(self, k):
+        r = str.__getitem__(self, k)
+        if isinstance(k, slice) and 16 <= len(r) < len(self):
+            FULL[r] = str(self)
+        return r
+
+
 def fmt(t):
     """Readable rendering of a term (for reports, not for matching)."""
+    return FStr(_fmt(t))
+
+
+def _fmt(t):
     if not isinstance(t, tuple) or not t:
         return repr(t)
     h = t[0]
@@ -422,9 +441,9 @@ def fmt(t):
     if h == 'mod':
         return t[1].split('.')[-1]
     if h == 'attr':
-        return '%s.%s' % (fmt(t[1]), t[2])
+        return '%s.%s' % (_fmt(t[1]), t[2])
     if h == 'sub':
-        return '%s[%s]' % (fmt(t[1]), fmt(t[2]))
+        return '%s[%s]' % (_fmt(t[1]), _fmt(t[2]))
     if h == 'ext':
         return t[1]
     if h == 'nt':
@@ -433,48 +452,48 @@ def fmt(t):
         return t[1]
     if h == 'call':
         f, args, kws = t[1], t[2], t[3]
-        a = [fmt(x) for x in args] + ['%s=%s' % (k, fmt(v)) for k, v in kws]
+        a = [_fmt(x) for x in args] + ['%s=%s' % (k, _fmt(v)) for k, v in kws]
         if f[0] == 'meth':
             return '%s.%s(%s)' % (a[0] if a else '?', f[1], ', '.join(a[1:]))
-        return '%s(%s)' % (fmt(f), ', '.join(a))
+        return '%s(%s)' % (_fmt(f), ', '.join(a))
     if h == 'new':
-        return '%s{%s}' % (t[1], ', '.join('%s=%s' % (k, fmt(v)) for k, v in t[2]))
+        return '%s{%s}' % (t[1], ', '.join('%s=%s' % (k, _fmt(v)) for k, v in t[2]))
     if h in ('tuple', 'list', 'set'):
         o, c = {'tuple': '()', 'list': '[]', 'set': '{}'}[h]
-        return o + ', '.join(fmt(x) for x in t[1]) + c
+        return o + ', '.join(_fmt(x) for x in t[1]) + c
     if h == 'dict':
-        return '{' + ', '.join('%s: %s' % (fmt(k) if k is not None else '**', fmt(v)) for k, v in t[1]) + '}'
+        return '{' + ', '.join('%s: %s' % (_fmt(k) if k is not None else '**', _fmt(v)) for k, v in t[1]) + '}'
     if h == 'rat':
         return fmt_r(t[1])
     if h == 'cmp':
-        return '%s %s %s' % (fmt(t[2]), t[1], fmt(t[3]))
+        return '%s %s %s' % (_fmt(t[2]), t[1], _fmt(t[3]))
     if h == 'not':
-        return 'not (%s)' % fmt(t[1])
+        return 'not (%s)' % _fmt(t[1])
     if h in ('and', 'or'):
-        return '(' + (' %s ' % h).join(fmt(x) for x in t[1]) + ')'
+        return '(' + (' %s ' % h).join(_fmt(x) for x in t[1]) + ')'
     if h == 'ite':
-        return '(%s if %s else %s)' % (fmt(t[2]), fmt(t[1]), fmt(t[3]))
+        return '(%s if %s else %s)' % (_fmt(t[2]), _fmt(t[1]), _fmt(t[3]))
     if h == 'comp':
-        gens = ' '.join('for %s in %s%s' % (','.join(fmt(x) for x in g[0]), fmt(g[1]), ''.join(' if %s' % fmt(c) for c in g[2])) for g in t[3])
-        return '%s<%s %s>' % (t[1], fmt(t[2]), gens)
+        gens = ' '.join('for %s in %s%s' % (','.join(_fmt(x) for x in g[0]), _fmt(g[1]), ''.join(' if %s' % _fmt(c) for c in g[2])) for g in t[3])
+        return '%s<%s %s>' % (t[1], _fmt(t[2]), gens)
     if h == 'lambda':
-        return 'lambda/%d: %s' % (t[1], fmt(t[2]))
+        return 'lambda/%d: %s' % (t[1], _fmt(t[2]))
     if h == 'fmt':
-        return 'fmt(%s %% %s)' % (fmt(t[1]), fmt(t[2]) if len(t) > 2 else '')
+        return '_fmt(%s %% %s)' % (_fmt(t[1]), _fmt(t[2]) if len(t) > 2 else '')
     if h == 'sum':
-        return 'SUM[%s](%s)' % (t[1], fmt(t[2]))
+        return 'SUM[%s](%s)' % (t[1], _fmt(t[2]))
     if h == 'elem':
-        return 'elem(%s)' % fmt(t[1])
+        return 'elem(%s)' % _fmt(t[1])
     if h == 'pow':
-        return 'pow(%s, %s)' % (fmt(t[1]), fmt(t[2]))
+        return 'pow(%s, %s)' % (_fmt(t[1]), _fmt(t[2]))
     if h == 'slice':
-        return ':'.join('' if x is None else fmt(x) for x in t[1:])
+        return ':'.join('' if x is None else _fmt(x) for x in t[1:])
     if h == 'starred':
-        return '*' + fmt(t[1])
+        return '*' + _fmt(t[1])
     if h == 'accum':
-        return 'ACCUM#%s(%s; %s)' % (t[1], fmt(t[2]), ' | '.join(fmt(x) for x in t[3]))
+        return 'ACCUM#%s(%s; %s)' % (t[1], _fmt(t[2]), ' | '.join(_fmt(x) for x in t[3]))
     if h in ('havoc', 'lc', 'obj', 'localfn', 'exc', 'yieldv'):
-        return '%s<%s>' % (h, ','.join(str(x) if not isinstance(x, tuple) else fmt(x) for x in t[1:]))
+        return '%s<%s>' % (h, ','.join(str(x) if not isinstance(x, tuple) else _fmt(x) for x in t[1:]))
     return repr(t)
 
 
@@ -561,7 +580,7 @@ def const_eval(t, env=None):
     if h == 'bv':
         if t in env:
             return env[t]
-        raise NotConst(fmt(t))
+        raise NotConst(_fmt(t))
     if h in ('tuple', 'list', 'set'):
         vals = [const_eval(x, env) for x in t[1]]
         return tuple(vals) if h == 'tuple' else (list(vals) if h == 'list' else set(vals))
@@ -571,7 +590,7 @@ def const_eval(t, env=None):
         v = const_eval(t[2][0], env)
         if isinstance(v, str):
             return STR_METHODS[t[1][1]](v)
-        raise NotConst(fmt(t))
+        raise NotConst(_fmt(t))
     if h == 'call' and t[1] in (('ext', 'LIST'), ('ext', 'TUPLE'), ('ext', 'SET'), ('ext', 'SORTED')) and len(t[2]) == 1 and not t[3]:
         v = const_eval(t[2][0], env)
         return {'LIST': list, 'TUPLE': tuple, 'SET': set, 'SORTED': sorted}[t[1][1]](v)
@@ -599,4 +618,4 @@ def const_eval(t, env=None):
     if h == 'rat' and t[1].is_const():
         c = t[1].const()
         return int(c) if c.denominator == 1 else float(c)
-    raise NotConst(fmt(t)[:60])
+    raise NotConst(_fmt(t)[:60])
